@@ -96,6 +96,14 @@ Definition to_bigint (data : bytes) : Z :=
       if top_bit last then - mag else mag
   end.
 
+(* BigInt << i32 (count >= 0): `if n.is_zero() { return n }`, otherwise magnitude * 2^count.
+   BigInt >> i32 (count >= 0): magnitude shifted, plus one when a negative value loses a set bit,
+   i.e. rounding toward minus infinity.  Both are Z.shiftl / Z.shiftr (Proofs/InterpNum.v:
+   bigint_shl_spec, bigint_shr_spec); the case split only keeps evaluation cheap for huge counts. *)
+Definition bigint_shl (a b : Z) : Z := if a =? 0 then 0 else Z.shiftl a b.
+Definition bigint_shr (a b : Z) : Z :=
+  if Z.log2 (Z.abs a) <? b then (if a <? 0 then -1 else 0) else Z.shiftr a b.
+
 Notation i32_max := 2147483647.
 Notation i32_min := (-2147483648).
 
@@ -582,8 +590,8 @@ Section Interp.
     | 149%N (* OP_MUL *) => op_binary (fun a b => a * b) st
     | 150%N (* OP_DIV *) => op_divmod Z.quot st
     | 151%N (* OP_MOD *) => op_divmod Z.rem st
-    | 152%N (* OP_LSHIFT *) => op_shift Z.shiftl st
-    | 153%N (* OP_RSHIFT *) => op_shift Z.shiftr st
+    | 152%N (* OP_LSHIFT *) => op_shift bigint_shl st
+    | 153%N (* OP_RSHIFT *) => op_shift bigint_shr st
     | 154%N (* OP_BOOLAND *) => op_boolop andb st
     | 155%N (* OP_BOOLOR *) => op_boolop orb st
     | 156%N (* OP_NUMEQUAL *) => op_binary_bool (fun a b => a =? b) st
